@@ -29,7 +29,7 @@ func c02Gen(r *rand.Rand, i int) *genReq {
 			}
 		}
 	}
-	o := genOpts{method: method, nBiases: r.Intn(4), minCrit: 2, maxCrit: 5, minAlt: 2, maxAlt: 6, negValues: r.Intn(4) == 0}
+	o := genOpts{method: method, nBiases: r.Intn(4), minCrit: 2, maxCrit: 5, minAlt: 2, maxAlt: 6, negValues: r.Intn(4) == 0, dupChosen: true, caseCrit: true}
 	if method == "choquetIntegral" {
 		o.maxCrit = 6 // up to 7 criteria after an adding bias (size thresholds in the power-set handling)
 	}
